@@ -38,6 +38,29 @@ class Sym:
         return f"<{self.tag}>"
 
 
+@dataclass(frozen=True)
+class SVal:
+    """a signed symbolic number: sign * <tag>  (enough to follow 'negate when minimising')"""
+    sign: int
+    tag: str
+
+    def __repr__(self):
+        return ("-" if self.sign < 0 else "+") + self.tag
+
+
+@dataclass(frozen=True)
+class SumVal:
+    terms: tuple
+
+    def __repr__(self):
+        return "sum(" + ", ".join(map(repr, self.terms)) + ")"
+
+
+class LocalFn:
+    def __init__(self, node, env, owner):
+        self.node, self.env, self.owner = node, env, owner
+
+
 @dataclass
 class Effect:
     kind: str            # 'store' | 'call' | 'yield'
@@ -46,6 +69,7 @@ class Effect:
     kwargs: dict = field(default_factory=dict)
     node: Any = None
     fn: Any = None
+    recv: Any = None
 
 
 class _Return(Exception):
@@ -79,8 +103,9 @@ class Interp:
         self.undecided: list[str] = []
 
     # ------------------------------------------------------------------ driver
-    def run(self, fn: FunctionInfo, env: dict) -> list[tuple[list[Effect], Any, list[str]]]:
-        """all (trace, return value, notes) over the choices for UNKNOWN conditions"""
+    def run(self, fn: FunctionInfo, env: dict, prelude: Optional[tuple] = None) -> list[tuple[list[Effect], Any, list[str]]]:
+        """all (trace, return value, notes) over the choices for UNKNOWN conditions.  *prelude* = (fn0, env0): a method
+        interpreted first on the same object (its stores to self.* are visible to *fn*)."""
         results = []
         pending = [[]]
         while pending:
@@ -88,9 +113,23 @@ class Interp:
                 raise Budget()
             pre = pending.pop()
             self.choices, self._pos, self.trace, self.undecided = list(pre), 0, [], []
+            if self.on_start is not None:
+                self.on_start()
+            env1 = _copy_env(env)
+            if prelude is not None:
+                self.fn_stack = [prelude[0]]
+                env0 = _copy_env(prelude[1])
+                try:
+                    self.call_body(prelude[0], env0, 0)
+                except _Loop:
+                    pass
+                for k, v in env0.items():
+                    if k.startswith("self."):
+                        env1[k] = v
+                self.prelude_len = len(self.trace)
             self.fn_stack = [fn]
             try:
-                rv = self.call_body(fn, dict(env), 0)
+                rv = self.call_body(fn, env1, 0)
             except _Loop:
                 rv = None
             results.append((self.trace, rv, list(self.undecided)))
@@ -190,7 +229,9 @@ class Interp:
             self.block(st.body, env, depth)
             self.block(st.orelse, env, depth)
             self.block(st.finalbody, env, depth)
-        # defs, imports, pass, global: no effect
+        elif isinstance(st, (ast.FunctionDef, ast.AsyncFunctionDef)):
+            env[st.name] = LocalFn(st, env, self.fn_stack[-1])
+        # imports, pass, global: no effect
 
     def assign(self, t: ast.AST, val: Any, env: dict, node: ast.AST) -> None:
         if isinstance(t, ast.Name):
@@ -215,8 +256,12 @@ class Interp:
 
     # ------------------------------------------------------------------ expressions
     def truthy(self, v: Any) -> bool:
+        if isinstance(v, (SVal, SumVal, LocalFn)):
+            return True   # a non-zero number / a function object
         if v is UNKNOWN or isinstance(v, Sym):
             return self.choose()
+        if isinstance(v, (dict, set)):
+            return len(v) > 0
         if isinstance(v, list):
             return len(v) > 0
         return bool(v)
@@ -241,20 +286,56 @@ class Interp:
             return UNKNOWN
         if isinstance(e, ast.UnaryOp) and isinstance(e.op, ast.Not):
             return not self.truthy(self.ev(e.operand, env, depth))
+        if isinstance(e, ast.UnaryOp) and isinstance(e.op, (ast.USub, ast.UAdd)):
+            v = self.ev(e.operand, env, depth)
+            if isinstance(v, SVal):
+                return SVal(-v.sign, v.tag) if isinstance(e.op, ast.USub) else v
+            if isinstance(v, (int, float)) and not isinstance(v, bool):
+                return -v if isinstance(e.op, ast.USub) else v
+            return UNKNOWN
+        if isinstance(e, ast.Dict):
+            d = {}
+            for k, v in zip(e.keys, e.values):
+                kv = self.ev(k, env, depth) if k is not None else UNKNOWN
+                if isinstance(kv, (str, int)):
+                    d[kv] = self.ev(v, env, depth)
+                else:
+                    return UNKNOWN
+            return d
+        if isinstance(e, ast.DictComp):
+            if len(e.generators) != 1:
+                return UNKNOWN
+            g = e.generators[0]
+            it = self.ev(g.iter, env, depth)
+            if not isinstance(it, list):
+                return UNKNOWN
+            d, sub = {}, dict(env)
+            for x in it:
+                self.assign(g.target, x, sub, e)
+                if all(self.truthy(self.ev(c, sub, depth)) for c in g.ifs):
+                    k = self.ev(e.key, sub, depth)
+                    if isinstance(k, Sym):
+                        k = k.tag
+                    if not isinstance(k, (str, int)):
+                        return UNKNOWN
+                    d[k] = self.ev(e.value, sub, depth)
+            return d
+        if isinstance(e, ast.Set):
+            return set(self._hashable(self.ev(x, env, depth)) for x in e.elts)
         if isinstance(e, ast.BoolOp):
             if isinstance(e.op, ast.Or):
                 last = False
                 for v in e.values:
                     last = self.ev(v, env, depth)
                     if self.truthy(last):
-                        return last if isinstance(last, bool) else True
-                return False
+                        return last if isinstance(last, (bool, SVal, SumVal, LocalFn, Sym, dict, list)) else True
+                return last if isinstance(last, (SVal, type(None))) else False
             last = True
             for v in e.values:
                 last = self.ev(v, env, depth)
                 if not self.truthy(last):
-                    return False
-            return last if isinstance(last, bool) else True
+                    return last if last is None else False
+            return last if isinstance(last, (bool, SVal, SumVal, LocalFn, Sym, dict, list)) else True
         if isinstance(e, ast.IfExp):
             return self.ev(e.body if self.truthy(self.ev(e.test, env, depth)) else e.orelse, env, depth)
         if isinstance(e, ast.Compare) and len(e.ops) == 1:
@@ -270,8 +351,9 @@ class Interp:
             if isinstance(op, (ast.Lt, ast.LtE, ast.Gt, ast.GtE)) and isinstance(l, (int, float)) and isinstance(r, (int, float)) \
                     and not isinstance(l, bool) and not isinstance(r, bool):
                 return {ast.Lt: l < r, ast.LtE: l <= r, ast.Gt: l > r, ast.GtE: l >= r}[type(op)]
-            if isinstance(op, (ast.In, ast.NotIn)) and isinstance(r, list) and l is not UNKNOWN:
-                return (l in r) if isinstance(op, ast.In) else (l not in r)
+            if isinstance(op, (ast.In, ast.NotIn)) and isinstance(r, (list, set, dict)) and l is not UNKNOWN:
+                key = self._hashable(l) if isinstance(r, (set, dict)) else l
+                return (key in r) if isinstance(op, ast.In) else (key not in r)
             return UNKNOWN
         if isinstance(e, (ast.List, ast.Tuple)):
             out = []
@@ -282,6 +364,12 @@ class Interp:
                 else:
                     out.append(self.ev(x, env, depth))
             return out
+        if isinstance(e, ast.BinOp) and isinstance(e.op, ast.Mult):
+            l, r = self.ev(e.left, env, depth), self.ev(e.right, env, depth)
+            for a, b in ((l, r), (r, l)):
+                if isinstance(a, SVal) and isinstance(b, (int, float)) and not isinstance(b, bool) and b != 0:
+                    return SVal(a.sign * (1 if b > 0 else -1), a.tag)
+            return UNKNOWN
         if isinstance(e, ast.BinOp) and isinstance(e.op, ast.Add):
             l, r = self.ev(e.left, env, depth), self.ev(e.right, env, depth)
             if isinstance(l, list) and isinstance(r, list):
@@ -294,6 +382,8 @@ class Interp:
             idx = self.ev(e.slice, env, depth) if not isinstance(e.slice, ast.Slice) else UNKNOWN
             if isinstance(base, list) and isinstance(idx, int) and not isinstance(idx, bool) and -len(base) <= idx < len(base):
                 return base[idx]
+            if isinstance(base, dict) and isinstance(idx, (str, int)):
+                return base.get(idx, UNKNOWN)
             if isinstance(base, Sym):
                 return Sym(f"{base.tag}[{norm(e.slice)[:12]}]")
             return UNKNOWN
@@ -328,7 +418,36 @@ class Interp:
                 return None if r is _NONE else r
         if nm in self.record_calls:
             recv = self.ev(c.func.value, env, depth) if isinstance(c.func, ast.Attribute) else None
-            self.trace.append(Effect("call", nm, tuple(args), kwargs, node=c, fn=self.fn_stack[-1]))
+            self.trace.append(Effect("call", nm, tuple(args), kwargs, node=c, fn=self.fn_stack[-1], recv=recv))
+        # calling a value: a local function (closure) or a symbolic callable
+        fval = None
+        if isinstance(c.func, ast.Name) and isinstance(env.get(c.func.id), (LocalFn, Sym)):
+            fval = env[c.func.id]
+        elif isinstance(c.func, ast.Subscript):
+            fval = self.ev(c.func, env, depth)
+        if isinstance(fval, LocalFn) and depth < self.max_depth:
+            return self.call_local(fval, args, kwargs, depth, env)
+        if isinstance(fval, Sym):
+            self.trace.append(Effect("callsym", fval.tag, tuple(args), kwargs, node=c, fn=self.fn_stack[-1]))
+            if self.sym_result is not None:
+                return self.sym_result(fval, args)
+            return Sym(f"{fval.tag}()")
+        if fval is None and isinstance(c.func, ast.Subscript):
+            pass
+        if isinstance(c.func, ast.Attribute) and nm in ("values", "keys", "items", "get", "add", "discard", "update") :
+            base = self.ev(c.func.value, env, depth)
+            if isinstance(base, dict):
+                if nm == "values":
+                    return list(base.values())
+                if nm == "keys":
+                    return list(base.keys())
+                if nm == "items":
+                    return [[k, v] for k, v in base.items()]
+                if nm == "get" and args:
+                    return base.get(self._hashable(args[0]), args[1] if len(args) > 1 else None)
+            if isinstance(base, set) and nm == "add" and args and isinstance(c.func.value, ast.Name):
+                base.add(self._hashable(args[0]))
+                return None
         if isinstance(c.func, ast.Name):
             if nm in ("all", "any") and len(args) == 1 and isinstance(args[0], list):
                 vals = [self.truthy(v) for v in args[0]]
@@ -339,12 +458,42 @@ class Interp:
                 return list(args[0])
             if nm == "bool" and len(args) == 1:
                 return self.truthy(args[0])
-            if nm == "isinstance":
-                return UNKNOWN
+            if nm in ("float", "int") and len(args) == 1 and isinstance(args[0], (SVal, int, float)):
+                return args[0]
+            if nm == "sum" and len(args) == 1 and isinstance(args[0], list) and all(isinstance(x, SVal) for x in args[0]):
+                return SumVal(tuple(args[0]))
+            if nm == "id" and len(args) == 1 and isinstance(args[0], Sym):
+                return "id:" + args[0].tag
+            if nm in ("set", "dict") and not args:
+                return set() if nm == "set" else {}
+            if nm == "set" and len(args) == 1 and isinstance(args[0], list):
+                return set(self._hashable(x) for x in args[0])
+            if nm == "isinstance" and len(c.args) == 2:
+                return _isinstance(args[0], c.args[1])
             if nm == "enumerate" and args and isinstance(args[0], list):
                 return [[i, x] for i, x in enumerate(args[0])]
             if nm == "zip" and all(isinstance(a, list) for a in args) and args:
                 return [list(t) for t in zip(*args)]
+        # module-level helper functions of the repository: inlined
+        if isinstance(c.func, ast.Name) and c.func.id not in env and depth < self.max_depth and self.fn_stack:
+            full = self.prog.resolve_name(self.fn_stack[-1].module, c.func.id)
+            target = self.prog.functions.get(full) if full else None
+            if target is not None and target.cls is None and target.parent is None and target not in self.fn_stack[-3:] \
+                    and isinstance(target.node, (ast.FunctionDef, ast.AsyncFunctionDef)):
+                a = target.node.args
+                names = [x.arg for x in a.posonlyargs + a.args]
+                cenv = {}
+                for p_, d in zip(names[len(names) - len(a.defaults):], a.defaults):
+                    cenv[p_] = self.ev(d, {}, depth)
+                for p_, v in zip(names, args):
+                    cenv[p_] = v
+                for k, v in kwargs.items():
+                    cenv[k] = v
+                self.fn_stack.append(target)
+                try:
+                    return self.call_body(target, cenv, depth + 1)
+                finally:
+                    self.fn_stack.pop()
         # methods of the same object (or of super()): inline through the class hierarchy
         if isinstance(c.func, ast.Attribute) and depth < self.max_depth and self.cls is not None:
             recv = c.func.value
@@ -395,6 +544,69 @@ class Interp:
         return UNKNOWN
 
 
+def _install():
+    def call_local(self, f: LocalFn, args, kwargs, depth, caller_env=None):
+        node = f.node
+        a = node.args
+        params = [x.arg for x in a.posonlyargs + a.args]
+        cenv = dict(f.env)
+        if caller_env is not None:
+            # the closure's 'self' is the caller's: attribute state is the current one
+            for k, v in caller_env.items():
+                if k.startswith("self."):
+                    cenv[k] = v
+        defaults = dict(zip(params[len(params) - len(a.defaults):], a.defaults))
+        for p_, d in defaults.items():
+            cenv[p_] = self.ev(d, f.env, depth)
+        for p_, v in zip(params, args):
+            cenv[p_] = v
+        for k, v in kwargs.items():
+            cenv[k] = v
+        try:
+            self.block(node.body, cenv, depth + 1)
+        except _Return as r:
+            return r.value
+        return None
+
+    def _hashable(self, v):
+        if isinstance(v, Sym):
+            return v.tag
+        if isinstance(v, list):
+            return tuple(self._hashable(x) for x in v)
+        return v if isinstance(v, (str, int, float, bool, tuple, type(None))) else repr(v)
+
+    Interp.call_local = call_local
+    Interp._hashable = _hashable
+    Interp.sym_result = None
+    Interp.on_start = None
+    Interp.prelude_len = 0
+
+
+def _copy_env(env: dict) -> dict:
+    out = {}
+    for k, v in env.items():
+        out[k] = list(v) if isinstance(v, list) else set(v) if isinstance(v, set) else dict(v) if isinstance(v, dict) else v
+    return out
+
+
+_BUILTIN_TYPES = {"list": list, "bool": bool, "int": int, "float": float, "dict": dict, "str": str, "set": set, "tuple": tuple}
+
+
+def _isinstance(v: Any, tyexpr: ast.AST) -> Any:
+    names = [tyexpr] if not isinstance(tyexpr, ast.Tuple) else list(tyexpr.elts)
+    tys = []
+    for n in names:
+        if isinstance(n, ast.Name) and n.id in _BUILTIN_TYPES:
+            tys.append(_BUILTIN_TYPES[n.id])
+        else:
+            return UNKNOWN
+    if isinstance(v, SVal) or isinstance(v, SumVal):
+        return any(t in (int, float) for t in tys) if all(t in (int, float, list, bool, dict, str, set, tuple) for t in tys) else UNKNOWN
+    if v is None or isinstance(v, (bool, int, float, str, list, dict, set)):
+        return isinstance(v, tuple(tys))
+    return UNKNOWN
+
+
 class _NoneMarker:
     pass
 
@@ -411,3 +623,6 @@ def _path(e: ast.AST) -> Optional[str]:
         parts.append(e.id)
         return ".".join(reversed(parts))
     return None
+
+
+_install()
